@@ -211,7 +211,7 @@ COMPONENTS = ss_components = {'real': ['adsg_core GraphProcessor (fix_des_var / 
 ASSUMPTIONS = ['E0 is the unfixed enumeration of a fresh twin built from the same spec (completeness of E0 itself is C04, '
                'not claimed here).', 'Continuous variables carry no value in the enumeration; fixing them only removes '
                'the column.', 'Graphs are small; complete selection-choice encoder.']
-WALL_BUDGET = {'quick': 70.0, 'thorough': 1200.0}
+WALL_BUDGET = {'quick': 70.0, 'thorough': 600.0}
 
 
 def jobs(tier, batch_seed):
